@@ -172,6 +172,26 @@ func c06CorpusScripts() map[string][]string {
 			reg(A[2].lower, []string{c06S}, []string{"now-committed"}),
 			recv(sg(A[2]), S, 2, 1),
 		),
+		// restart (module-level, then whole application) with two relayers of the same chain and a third one elsewhere:
+		// afterwards everybody has exactly the chains and addresses of his own registration
+		"restart-several-relayers": append(append([]string{}, head...),
+			"mkclient "+hxs(c06S2)+" oth",
+			reg(A[0].lower, []string{c06S, "nocl"}, []string{"a-on-s", "a-on-nocl"}),
+			reg(A[1].lower, []string{c06S}, []string{"b-on-s"}),
+			reg(A[2].lower, []string{c06S2}, []string{"c-on-s2"}),
+			"restart module",
+			"q "+S+" "+hxs(A[1].lower)+" "+hxs("B-ON-S"),
+			"q "+hxs("nocl")+" "+hxs(A[1].lower)+" "+hxs("a-on-nocl"),
+			"q "+S+" "+hxs(A[2].lower)+" "+hxs("a-on-s"),
+			recv(sg(A[1]), S, 1, 1),
+			"upd "+sg(A[2])+" "+S+" ? none",
+			recv(sg(A[2]), S, 2, 1),
+			"restart app",
+			recv(sg(A[2]), hxs(c06S2), 1, 1),
+			recv(sg(A[0]), S, 2, 1),
+			"upd "+sg(A[1])+" "+hxs(c06S2)+" ? none",
+			"upd "+sg(A[2])+" "+hxs(c06S2)+" ? none",
+		),
 		// the contract level: call data inside a relayed packet and through `execute`
 		"evm-nested-paths": {
 			"evmreset",
@@ -187,6 +207,19 @@ func c06CorpusScripts() map[string][]string {
 			"call endpoint onRecvPacket contract " + hx(c06EOA.addr) + " " + hx(c06SwallowAddr.Bytes()),
 			"call packet sendPacket module 0000000000000000000000000000000020000003",
 			"call packet sendPacket module 0000000000000000000000000000000020000002",
+			"call packet setChainName delegatecall " + hx(c06EOA.addr) + " " + hx(c06DelegateAddr.Bytes()),
+			"call endpoint bindToken callcode " + hx(c06EOA.addr) + " " + hx(c06CallcodeAddr.Bytes()),
+			"call packet setAckStatus staticcall " + hx(c06EOA.addr) + " " + hx(c06StaticAddr.Bytes()),
+			"emit " + hx(c06EOA.addr) + " " + hx(c06EmitterAddr.Bytes()),
+			"emit packet " + hx(c06EmitterAddr.Bytes()),
+			"spoof agent-send",
+			"evmrestart",
+			"call packet setSequence eoa " + hx(c06EOA.addr),
+			"call packet setSequence module 7426afc489d0eef99a0b438def226ad139f75235",
+			"evmupgrade",
+			"call packet setSequence packet",
+			"call packet setSequence module 7426afc489d0eef99a0b438def226ad139f75235",
+			"emit " + hx(c06EOA.addr) + " " + hx(c06EmitterAddr.Bytes()),
 		},
 	}
 }
